@@ -299,7 +299,7 @@ def chao1(counts):
     hatSchao1 = Sobs + f1^2/(2 f2)
     """
     
-    f1 = counts[0]
+    f1 = float(counts[0])  # float arithmetic: f1**2 overflows fixed-width integer counts
     Sobs = np.sum(counts)
 
     if (len(counts) == 1) or (counts[1] == 0):
@@ -329,7 +329,7 @@ def chao2(counts, m):
     m: number of replicates
     """
   
-    q1 = counts[0]
+    q1 = float(counts[0])  # float arithmetic: q1**2 overflows fixed-width integer counts
     Sobs = np.sum(counts)
 
     if (len(counts) == 1) or (counts[1] == 0):
